@@ -251,8 +251,8 @@ theorem textLt_asymm : ∀ a b : Text, textLt a b = true → textLt b a = false
     · subst e
       exact ⟨by omega, Or.inr (textLt_asymm as bs h)⟩
 
-theorem phraseLess_asymm (a b : PF) (h : phraseLess a b = true) : phraseLess b a = false := by
-  unfold phraseLess at h ⊢
+theorem phraseLessM_asymm (mode : Nat) (a b : PF) (h : phraseLessM mode a b = true) : phraseLessM mode b a = false := by
+  unfold phraseLessM at h ⊢
   by_cases h11 : (a.1.length == 1 && b.1.length == 1) = true
   · simp [h11] at h
   · have h11' : (b.1.length == 1 && a.1.length == 1) = false := by
@@ -261,7 +261,12 @@ theorem phraseLess_asymm (a b : PF) (h : phraseLess a b = true) : phraseLess b a
     by_cases h1 : (a.1.length == 1 || b.1.length == 1) = true
     · have h1' : (b.1.length == 1 || a.1.length == 1) = true := by rw [Bool.or_comm]; exact h1
       simp only [h1, h1', if_true] at h ⊢
-      simp at h ⊢; omega
+      by_cases hm : (mode == 0) = true
+      · simp only [hm, if_true] at h ⊢
+        simp at h ⊢; omega
+      · simp only [hm] at h ⊢
+        simp at h h11 ⊢
+        intro hb; exact h11 h hb
     · have h1' : (b.1.length == 1 || a.1.length == 1) = false := by
         rw [Bool.or_comm]; simpa using h1
       simp only [h1, h1'] at h ⊢
@@ -272,6 +277,10 @@ theorem phraseLess_asymm (a b : PF) (h : phraseLess a b = true) : phraseLess b a
       · have hf' : (b.2 == a.2) = false := by simp at hf ⊢; omega
         simp only [hf, hf'] at h ⊢
         simp at h ⊢; omega
+
+/-- whichever of the two arms the source has, the comparator is asymmetric (all the proofs need) -/
+theorem phraseLess_asymm (a b : PF) (h : phraseLess a b = true) : phraseLess b a = false :=
+  phraseLessM_asymm Gen.trieMixedCmp a b h
 
 theorem phraseSort_idem (ps : List PF) : phraseSort (phraseSort ps) = phraseSort ps :=
   stableSort_idem phraseLess_asymm ps
